@@ -404,7 +404,16 @@ def take_rule(ctx):
         ok = len(tk) == 1
         if ok:
             o = origin(tk[0][0], tk[0][2]['args'][1])
-            ok = o.params() == {2} and 'try_into' in o.flags and 'try' in o.flags and not o.has_arith()
+            conv = bool({'try_into', 'try_from'} & set(o.flags))
+            checked = 'try' in o.flags
+            if conv and not checked:
+                # the explicit spelling: `match u64::try_from(n) { Ok(n) => n, Err(_) => return Err(..) }`
+                x_ = tk[0][0]
+                for cbb, ct in x_.calls():
+                    if any(c is ct for c in o.calls) and cname(ct).endswith(('::try_from', '::try_into')):
+                        te = try_edges(x_, cbb)
+                        checked = te is not None and te[1] is not None and all_paths_err(x_, te[1])
+            ok = o.params() == {2} and conv and checked and not o.has_arith()
         ctx.ob('TAKE', 'ReaderRead::take', ok, short_loc(b.span), 'reader limited with io::Take(block_size via checked conversion): %s' % ok)
     else:
         ctx.ob('TAKE', 'ReaderRead::take', False, None, 'anchor not found')
